@@ -104,6 +104,14 @@ def _pat(ex, p):
         return ('chars', [chr(concrete_int(c)) for c in p.elems[:concrete_int(p.len)]])
     if isinstance(p, (str, SymStr, Choice)):
         return ('str', C(ex, p))
+    if isinstance(p, (FnItem, Closure)):
+        # predicate pattern (FnMut(char) -> bool): evaluated per concrete character through the executor
+        def pred(ch, p=p):
+            r = ex.call_value(p, [ord(ch)])
+            if not isinstance(r, bool):
+                raise Unsupported('predicate pattern with a symbolic answer')
+            return r
+        return ('pred', pred)
     raise Unsupported('pattern %r' % type(p))
 
 
@@ -276,6 +284,9 @@ def i_is_ascii_digit(ex, args):
 
 @intrinsic('str::trim')
 def str_trim(ex, args):
+    v0 = ex.deref(args[0])
+    if hasattr(v0, 'trim_ws'):
+        return v0.trim_ws(ex, True, True)
     s = C(ex, args[0])
     i, j = 0, len(s)
     while i < j and char_is_whitespace(ord(s[i])):
@@ -287,6 +298,9 @@ def str_trim(ex, args):
 
 @intrinsic('str::trim_end')
 def str_trim_end(ex, args):
+    v0 = ex.deref(args[0])
+    if hasattr(v0, 'trim_ws'):
+        return v0.trim_ws(ex, False, True)
     s = C(ex, args[0])
     j = len(s)
     while j > 0 and char_is_whitespace(ord(s[j - 1])):
@@ -314,6 +328,35 @@ def rust_lowercase(s: str) -> str:
     # Python's str.lower follows the same Unicode SpecialCasing (incl. final sigma) as Rust's to_lowercase;
     # differential validation against the native std covers every string of a run.
     return s.lower()
+
+
+def ascii_lowercase(s: str) -> str:
+    return ''.join(chr(ord(c) + 32) if 'A' <= c <= 'Z' else c for c in s)
+
+
+def ascii_uppercase(s: str) -> str:
+    return ''.join(chr(ord(c) - 32) if 'a' <= c <= 'z' else c for c in s)
+
+
+@intrinsic('str::to_ascii_lowercase')
+def str_to_ascii_lowercase(ex, args):
+    v = ex.deref(args[0])
+    if hasattr(v, 'to_ascii_lowercase'):
+        return v.to_ascii_lowercase(ex)
+    v = S(ex, v)
+    if isinstance(v, SymStr):
+        c = symstr_concrete(v)
+        if c is not None:
+            return ascii_lowercase(c)
+        el = []
+        for e in v.seq.elems:
+            if is_sym(e):
+                e8 = bv(e, 8)
+                el.append(z3.If(z3.And(z3.UGE(e8, 65), z3.ULE(e8, 90)), e8 + 32, e8))
+            else:
+                el.append(e + 32 if 65 <= e <= 90 else e)
+        return SymStr(Seq(tuple(el), v.seq.len, 'u8'))
+    return ascii_lowercase(v)
 
 
 @intrinsic('str::to_lowercase')
@@ -882,8 +925,22 @@ class StrSplit(IterBase):
 
 @intrinsic('str::split')
 def str_split(ex, args):
+    v0 = ex.deref(args[0])
+    if hasattr(v0, 'split_pat'):
+        return v0.split_pat(ex, _pat(ex, args[1]))
     s = C(ex, args[0])
     k, p = _pat(ex, args[1])
+    if k == 'pred':
+        parts = []
+        cur = ''
+        for ch in s:
+            if p(ch):
+                parts.append(cur)
+                cur = ''
+            else:
+                cur += ch
+        parts.append(cur)
+        return StrSplit(tuple(parts))
     if k == 'chars':
         parts = []
         cur = ''
